@@ -26,24 +26,31 @@ const BODIES: [&str; 3] = ["body", "another body", ""];
 
 impl<'a> World<'a> {
     pub fn main_loop(&mut self) {
-        let steps = 20 + self.ch.pick_usize(40);
+        let steps = if self.own == "C07" { 40 + self.ch.pick_usize(60) } else { 20 + self.ch.pick_usize(40) };
         for _ in 0..steps {
             self.ch.mark();
             let r = self.ch.pick_usize(self.reps.len());
             // 0 => sync (the benign, most frequent step)
             let mut w = [6u32, 3, 6, 2, 5, if self.faults { 3 } else { 0 }, if self.faults { 1 } else { 0 }];
+            if self.own == "C07" {
+                // this check wants comments, reviews and many actors on few objects
+                w = [6, if self.issues.len() < 2 { 5 } else { 1 }, 7, if self.patches.len() < 2 { 5 } else { 1 }, 7, if self.faults { 1 } else { 0 }, if self.faults { 1 } else { 0 }];
+            }
             if self.own == "C08" {
                 // this check wants merges by several delegates and lifecycle actions after them
                 w = [5, 1, 1, if self.patches.len() < 2 { 6 } else { 1 }, 10, if self.faults { 2 } else { 0 }, if self.faults { 1 } else { 0 }];
             }
-            match self.ch.weighted(&w) {
+            let wa = if !self.faults { 0 } else if self.own == "C07" { 9 } else { 2 };
+            let w8 = [w[0], w[1], w[2], w[3], w[4], w[5], w[6], wa];
+            match self.ch.weighted(&w8) {
                 0 => self.sync(r),
                 1 => self.create_issue(r),
                 2 => self.issue_op(r),
                 3 => self.create_patch(r),
                 4 => self.patch_op(r),
                 5 => self.byzantine(r),
-                _ => self.partition(),
+                6 => self.partition(),
+                _ => self.authz_byzantine(r),
             }
             if !self.res.violations.is_empty() {
                 return;
@@ -168,17 +175,23 @@ impl<'a> World<'a> {
         let Ok(mut iss) = issues.get_mut(&id) else { return };
         let comments: Vec<radicle::cob::thread::CommentId> = iss.comments().map(|(c, _)| *c).collect();
         let a_comment = comments[self.ch.pick_usize(comments.len())];
-        let which = self.ch.weighted(&[5, 3, 2, 2, 3, 2, 2, 2, 2]);
+        let which = if self.own == "C07" { self.ch.weighted(&[8, 2, 1, 2, 3, 3, 1, 1, 1]) } else { self.ch.weighted(&[5, 3, 2, 2, 3, 2, 2, 2, 2]) };
         let (what, out): (&str, Result<(), String>) = match which {
-            0 => ("comment", iss.comment(*self.ch.choose(&BODIES), a_comment, [], &signer).map(|_| ()).map_err(|e| e.to_string())),
-            1 => ("edit-title", iss.edit(*self.ch.choose(&TITLES), &signer).map(|_| ()).map_err(|e| e.to_string())),
+            0 => ("comment", iss.comment(if self.ch.pick(4) == 0 { self.ch.choose(&BODIES).to_string() } else { self.tag(r, 'B') }, a_comment, [], &signer).map(|_| ()).map_err(|e| e.to_string())),
+            1 => ("edit-title", iss.edit(if self.ch.pick(3) == 0 { self.ch.choose(&TITLES).to_string() } else { self.tag(r, 'T') }, &signer).map(|_| ()).map_err(|e| e.to_string())),
             2 => ("edit-description", iss.edit_description(*self.ch.choose(&BODIES), [], &signer).map(|_| ()).map_err(|e| e.to_string())),
             3 => {
                 let st = if self.ch.pick(2) == 0 { issue::State::Closed { reason: if self.ch.pick(2) == 0 { issue::CloseReason::Solved } else { issue::CloseReason::Other } } } else { issue::State::Open };
                 ("lifecycle", iss.lifecycle(st, &signer).map(|_| ()).map_err(|e| e.to_string()))
             }
-            4 => ("edit-comment", iss.edit_comment(a_comment, *self.ch.choose(&BODIES), [], &signer).map(|_| ()).map_err(|e| e.to_string())),
-            5 => ("redact-comment", iss.redact_comment(a_comment, &signer).map(|_| ()).map_err(|e| e.to_string())),
+            4 => ("edit-comment", iss.edit_comment(a_comment, if self.ch.pick(4) == 0 { self.ch.choose(&BODIES).to_string() } else { self.tag(r, 'B') }, [], &signer).map(|_| ()).map_err(|e| e.to_string())),
+            5 => {
+                let out = iss.redact_comment(a_comment, &signer).map(|_| ()).map_err(|e| e.to_string());
+                if out.is_ok() {
+                    self.authz.redacts.entry(a_comment).or_default().insert(r);
+                }
+                ("redact-comment", out)
+            }
             6 => {
                 let labels: Vec<Label> = [["bug"].as_slice(), ["bug", "ui"].as_slice(), [].as_slice()][self.ch.pick_usize(3)].iter().map(|l| Label::new(*l).unwrap()).collect();
                 ("label", iss.label(labels, &signer).map(|_| ()).map_err(|e| e.to_string()))
@@ -262,9 +275,9 @@ impl<'a> World<'a> {
         let rev = revs[self.ch.pick_usize(revs.len())];
         let merged_before = matches!(p.state(), patch::State::Merged { .. });
         let reviews: Vec<patch::ReviewId> = p.revisions().flat_map(|(_, rv)| rv.reviews().map(|(_, r)| r.id()).collect::<Vec<_>>()).collect();
-        let which = if c08 { self.ch.weighted(&[2, 2, 1, 9, 6, 2, 1, 0, 1]) } else { self.ch.weighted(&[4, 3, 3, 5, 3, 2, 2, 1, 2]) };
+        let which = if c08 { self.ch.weighted(&[2, 2, 1, 9, 6, 2, 1, 0, 1]) } else if self.own == "C07" { self.ch.weighted(&[8, 2, 7, 2, 2, 1, 2, 1, 4]) } else { self.ch.weighted(&[4, 3, 3, 5, 3, 2, 2, 1, 2]) };
         let (what, out): (&str, Result<(), String>) = match which {
-            0 => ("revision-comment", p.comment(rev, *self.ch.choose(&BODIES), None, None, [], &signer).map(|_| ()).map_err(|e| e.to_string())),
+            0 => ("revision-comment", p.comment(rev, if self.ch.pick(4) == 0 { self.ch.choose(&BODIES).to_string() } else { self.tag(r, 'B') }, None, None, [], &signer).map(|_| ()).map_err(|e| e.to_string())),
             1 => {
                 let oid = self.commits[2 + self.ch.pick_usize(2)];
                 ("update", p.update("new revision", self.commits[0], oid, &signer).map(|_| ()).map_err(|e| e.to_string()))
@@ -275,7 +288,7 @@ impl<'a> World<'a> {
                     1 => Some(patch::Verdict::Reject),
                     _ => None,
                 };
-                ("review", p.review(rev, verdict, Some("summary".to_string()), vec![], &signer).map(|_| ()).map_err(|e| e.to_string()))
+                ("review", p.review(rev, verdict, Some(self.tag(r, 'S')), vec![], &signer).map(|_| ()).map_err(|e| e.to_string()))
             }
             3 => {
                 // merge: commit on the delegate's branch, or not an ancestor of it
@@ -291,7 +304,7 @@ impl<'a> World<'a> {
                 ("lifecycle", p.lifecycle(st, &signer).map(|_| ()).map_err(|e| e.to_string()))
             }
             5 => ("redact-revision", p.redact(rev, &signer).map(|_| ()).map_err(|e| e.to_string())),
-            6 => ("edit", p.edit::<_, String>(self.ch.choose(&TITLES).to_string(), patch::MergeTarget::Delegates, &signer).map(|_| ()).map_err(|e| e.to_string())),
+            6 => ("edit", p.edit::<_, String>(if self.ch.pick(3) == 0 { self.ch.choose(&TITLES).to_string() } else { self.tag(r, 'T') }, patch::MergeTarget::Delegates, &signer).map(|_| ()).map_err(|e| e.to_string())),
             7 => {
                 let set: BTreeSet<Did> = [Did::from(self.reps[0].nid)].into_iter().collect();
                 ("assign", p.assign(set, &signer).map(|_| ()).map_err(|e| e.to_string()))
@@ -301,7 +314,11 @@ impl<'a> World<'a> {
                     ("label", p.label([Label::new("wip").unwrap()], &signer).map(|_| ()).map_err(|e| e.to_string()))
                 } else {
                     let rv = reviews[self.ch.pick_usize(reviews.len())];
-                    ("redact-review", p.redact_review(rv, &signer).map(|_| ()).map_err(|e| e.to_string()))
+                    let out = p.redact_review(rv, &signer).map(|_| ()).map_err(|e| e.to_string());
+                    if out.is_ok() {
+                        self.authz.redacts.entry(*rv).or_default().insert(r);
+                    }
+                    ("redact-review", out)
                 }
             }
         };
@@ -349,7 +366,7 @@ impl<'a> World<'a> {
             let acts: Vec<issue::Action> = match self.ch.pick(4) {
                 0 => {
                     kind = "valid-edit-then-invalid-title";
-                    vec![issue::Action::Edit { title: "smuggled title".into() }, issue::Action::Edit { title: "bad\ntitle".into() }]
+                    vec![issue::Action::Edit { title: self.tag(r, 'T').into() }, issue::Action::Edit { title: "bad\ntitle".into() }]
                 }
                 1 => {
                     kind = "valid-comment-then-comment-on-missing-parent";
@@ -372,7 +389,7 @@ impl<'a> World<'a> {
             let acts: Vec<patch::Action> = match self.ch.pick(3) {
                 0 => {
                     kind = "valid-edit-then-merge-by-non-delegate-or-bad-title";
-                    vec![patch::Action::Edit { title: "smuggled title".into(), target: patch::MergeTarget::Delegates }, patch::Action::Edit { title: "bad\ntitle".into(), target: patch::MergeTarget::Delegates }]
+                    vec![patch::Action::Edit { title: self.tag(r, 'T').into(), target: patch::MergeTarget::Delegates }, patch::Action::Edit { title: "bad\ntitle".into(), target: patch::MergeTarget::Delegates }]
                 }
                 1 => {
                     kind = "valid-label-then-review-of-missing-revision";
